@@ -85,6 +85,22 @@ func ruleSyntaxErrors(c *Ctx) *RuleResult {
 			}
 			return cls
 		}
+		if ph, ok := v.(*ssa.Phi); ok && depth < 4 {
+			// chosen among several: each must be of an accepted kind
+			cls := ""
+			for _, e := range ph.Edges {
+				k := classify(e, fn, what, depth+1)
+				if k == "" {
+					return ""
+				}
+				if cls == "" {
+					cls = k
+				} else if !strings.Contains(cls, k) {
+					cls = cls + "|" + k
+				}
+			}
+			return cls
+		}
 		switch what {
 		case "Expression":
 			if t, name, ok := fieldOf(v); ok && isLexOrParser(t) && name == "expression" {
